@@ -324,6 +324,23 @@ def requests(seed=1, size="quick"):
                                     lambda kind=kind, n=n, ram=ram, disk=disk, uf=uf, ub=ub, wd=wd, rd=rd:
                                     rinit(kind, n, ram, disk, uf, ub, wd, rd)))
 
+    msm = sys.modules.get("checkpoint_schedules.multistage")
+
+    def alloc(n, ram, disk, ww, rw, dw, tr):
+        try:
+            with contextlib.redirect_stdout(io.StringIO()):
+                wts, al = msm.allocate_snapshots(n, ram, disk, write_weight=ww, read_weight=rw, delete_weight=dw, trajectory=tr)
+            return ",".join(fr(v) for v in wts) + " " + ",".join(x.name for x in al)
+        except Exception as e:   # noqa: BLE001
+            return "raise:" + type(e).__name__
+    for n in (-1, 0, 1, 2, 3, 4, 5, 7, 10, 16, 25, 40):
+        for ram in (-1, 0, 1, 2, 3, 5):
+            for disk in (-1, 0, 1, 2, 4):
+                for (ww, rw, dw) in ((1.0, 1.0, 0.0), (2.0, 0.5, 0.25), (0.0, 1.0, 1.0)):
+                    for tr in ("maximum", "revolve"):
+                        out.append(("alloc %d %d %d %s %s %s %s" % (n, ram, disk, fr(ww), fr(rw), fr(dw), tr),
+                                    lambda n=n, ram=ram, disk=disk, ww=ww, rw=rw, dw=dw, tr=tr: alloc(n, ram, disk, ww, rw, dw, tr)))
+
     def msinit(n, ram, disk, tr):
         try:
             o = cs.MultistageCheckpointSchedule(n, ram, disk, trajectory=tr)
